@@ -23,57 +23,65 @@ pub fn hexval(b: u8) -> Option<u32> {
     }
 }
 
-/// The documented syntax: an optional '#' followed by exactly `n` hexadecimal digits with `n` in `allowed`, nothing else.
-/// Returns `Some((offset of the first digit, n))` for well-formed input and `None` otherwise.
-pub fn spec<const N: usize>(buf: &[u8; N], len: usize, allowed: &[usize]) -> Option<(usize, usize)> {
-    let off = if len > 0 && buf[0] == b'#' { 1 } else { 0 };
+/// `true` for the ASCII hexadecimal digits (branch-free form of `hexval(b).is_some()`).
+#[inline]
+pub fn is_hex(b: u8) -> bool {
+    (b.wrapping_sub(b'0') < 10) | (b.wrapping_sub(b'a') < 6) | (b.wrapping_sub(b'A') < 6)
+}
+
+/// The documented syntax: an optional '#' followed by exactly `n` hexadecimal digits with `n` one of `allowed`
+/// (unused slots = usize::MAX), nothing else. `digits_ok(off)` must say whether every byte at positions `off..len` is a hex
+/// digit (computed by the generated loop-free `hex_N` functions). Returns `Some((offset of the first digit, n))` for
+/// well-formed input, `None` otherwise.
+///
+/// NOTE: no loops anywhere in the harness-side specification. `#[kani::unwind]` is one bound for every loop of the
+/// harness, and the `from_str_radix` loops of the code under test are unwound up to that bound at every call site (their
+/// trip count depends on the symbolic sign test), so the bound must be as small as the code under test allows.
+pub fn spec(first: u8, len: usize, hex_from_0: bool, hex_from_1: bool, allowed: [usize; 4]) -> Option<(usize, usize)> {
+    let hash = len > 0 && first == b'#';
+    let off = if hash { 1 } else { 0 };
     let n = len - off;
-    let mut ok = false;
-    let mut j = 0;
-    while j < allowed.len() {
-        if allowed[j] == n {
-            ok = true;
-        }
-        j += 1;
-    }
-    let mut i = 0;
-    while i < N {
-        if i >= off && i < len && hexval(buf[i]).is_none() {
-            ok = false;
-        }
-        i += 1;
-    }
-    if ok {
+    let count_ok = (n == allowed[0]) | (n == allowed[1]) | (n == allowed[2]) | (n == allowed[3]);
+    let digits_ok = if hash { hex_from_1 } else { hex_from_0 };
+    if count_ok & digits_ok {
         Some((off, n))
     } else {
         None
     }
 }
 
-/// Value of the `width` hex digits starting at `start` (caller guarantees they are digits and in range).
+/// Value of the `width` (<= 8) hex digits starting at `start` (caller guarantees they are digits). Unrolled.
 pub fn field<const N: usize>(buf: &[u8; N], start: usize, width: usize) -> u32 {
     let mut v: u32 = 0;
-    let mut j = 0;
-    while j < width {
-        let i = start + j;
-        let d = if i < N { hexval(buf[i]).unwrap_or(0) } else { 0 };
-        v = (v << 4) | d;
-        j += 1;
+    macro_rules! step {
+        ($j:expr) => {
+            if $j < width {
+                let i = start + $j;
+                let d = if i < N { hexval(buf[i]).unwrap_or(0) } else { 0 };
+                v = (v << 4) | d;
+            }
+        };
     }
+    step!(0);
+    step!(1);
+    step!(2);
+    step!(3);
+    step!(4);
+    step!(5);
+    step!(6);
+    step!(7);
     v
 }
 
 /// The components a well-formed string denotes: `per` digits per component, in r, g, b(, a) order.
 pub fn digits<const N: usize>(buf: &[u8; N], off: usize, n: usize, ncomp: usize) -> (usize, [u32; 4]) {
     let per = n / ncomp;
-    let mut v = [0u32; 4];
-    let mut c = 0;
-    while c < 4 {
-        if c < ncomp {
-            v[c] = field(buf, off + c * per, per);
-        }
-        c += 1;
-    }
+    let v = [
+        field(buf, off, per),
+        field(buf, off + per, per),
+        field(buf, off + 2 * per, per),
+        if ncomp > 3 { field(buf, off + 3 * per, per) } else { 0 },
+    ];
     (per, v)
 }
 
@@ -197,31 +205,14 @@ impl FromDigits for Rgba<Std, f64> {
 
 /// The strict-and-total parse obligation on the string `buf[..len]` (which the caller made valid UTF-8):
 /// no panic (any panic inside `parse` is a failed Kani check), `Ok(c)` only for well-formed strings and with the
-/// denoted value, `Err` only for ill-formed strings. `value = false` skips the value comparison (float targets).
-pub fn check_parse<T, const N: usize>(buf: &[u8; N], len: usize, allowed: &[usize], value: bool)
-where
-    T: FromStr + FromDigits,
-{
-    // Case split on the (symbolic) length with a concrete loop counter: same set of strings, but in every branch the
-    // slice length is a constant for CBMC's symbolic execution, so the parser's `match hex_code.len()` arms that cannot be
-    // taken are pruned instead of being bit-blasted.
-    let mut l = 0;
-    while l <= N {
-        if len == l {
-            check_parse_at::<T, N>(buf, l, allowed, value);
-        }
-        l += 1;
-    }
-}
-
-fn check_parse_at<T, const N: usize>(buf: &[u8; N], len: usize, allowed: &[usize], value: bool)
+/// denoted value, `Err` only for ill-formed strings. `value = false` skips the value comparison.
+pub fn check_parse<T, const N: usize>(buf: &[u8; N], len: usize, want: Option<(usize, usize)>, value: bool)
 where
     T: FromStr + FromDigits,
 {
     // SAFETY: every caller builds `buf[..len]` as valid UTF-8 (ASCII bytes, or chars encoded by `char::encode_utf8`).
     let s = unsafe { core::str::from_utf8_unchecked(&buf[..len]) };
     let got = s.parse::<T>();
-    let want = spec(buf, len, allowed);
     match got {
         Ok(c) => {
             assert!(want.is_some(), "strict: accepted a string that is not '#'? + the documented number of hex digits");
@@ -238,18 +229,22 @@ where
     }
 }
 
-/// Appends the UTF-8 encoding of `c` (encoded by core's `char::encode_utf8`, so valid by construction).
+/// Appends the UTF-8 encoding of `c` (encoded by core's `char::encode_utf8`, so valid by construction). Loop-free.
+/// The caller's buffer has 4 bytes per pushed char, so the writes are always in range.
 pub fn push_char<const N: usize>(buf: &mut [u8; N], len: &mut usize, c: char) {
     let mut tmp = [0u8; 4];
     let l = c.encode_utf8(&mut tmp).len();
-    let mut j = 0;
-    while j < 4 {
-        if j < l && *len < N {
-            buf[*len] = tmp[j];
-            *len += 1;
-        }
-        j += 1;
+    buf[*len] = tmp[0];
+    if l > 1 {
+        buf[*len + 1] = tmp[1];
     }
+    if l > 2 {
+        buf[*len + 2] = tmp[2];
+    }
+    if l > 3 {
+        buf[*len + 3] = tmp[3];
+    }
+    *len += l;
 }
 
 /// Fixed-capacity `fmt::Write` sink (no allocation); overflow is an error.
